@@ -202,3 +202,12 @@ emit("close-again", (coroutine.close(co)))
 	verifAssert(okPrefix, "close-trace-as-the-manual-prescribes")
 	verifAssert(verifLiveGoroutines() == 0, "closed-coroutine-leaves-no-goroutine")
 }
+
+// resume and close of a coroutine with pending to-be-closed variables report the
+// final error (the handler's error replaces the body's), also on a second
+// close; see vhCoroutineCloseTrace in c10.go
+func VerifH_C09_close_reports_final_error() {
+	verifEnableRaceDetector()
+	vhCoroutineCloseTrace()
+	verifAssert(verifLiveGoroutines() == 0, "no-goroutine-left-behind")
+}
